@@ -48,6 +48,17 @@ func TestDebugPrio(t *testing.T) {
 				continue
 			}
 		}
+		if os.Getenv("VERIF_DEBUG_FILTER") == "longS" {
+			has := false
+			for _, op := range sc.Script {
+				if op.K == "S" && op.D > 100000 {
+					has = true
+				}
+			}
+			if !has {
+				continue
+			}
+		}
 		rep := 1
 		if v := os.Getenv("VERIF_DEBUG_REPEAT"); v != "" {
 			rep, _ = strconv.Atoi(v)
